@@ -67,9 +67,10 @@ def frag_props():
 
 
 def theorems_for(pid):
+    """theorems serving property `pid` (all theorems when pid is None)"""
     _, table = theorem_table()
     fp = frag_props()
-    return [t for t in table if t['kind'] == 'theorem' and any(pid in fp.get(f, ()) for f in t['frags'])]
+    return [t for t in table if t['kind'] == 'theorem' and (pid is None or any(pid in fp.get(f, ()) for f in t['frags']))]
 
 
 def obligations(pid, repo=None):
